@@ -640,7 +640,7 @@ class Case:
                     detail_head + f"{nm} moved by {float(got)!r}, stated {float(want)!r} (diff {float(got - want):.3e})",
                     {"case": self.c, "bar": self.bar},
                 )
-        if over:
+        if over and not wallet_bound:
             mon.ev()
             ok = (O.close(d_coll, -d_weth, AMT_REL) and O.close(d_short, d_osq, AMT_REL)
                   and -d_coll <= (F(wd) if wd is not None else vs.coll) + Fraction(1, 10**27) and -d_short <= F(burn) + Fraction(1, 10**27))
